@@ -81,8 +81,10 @@ def renderW : WRes → String
 
 def render (isHead : Bool) (s : St) (lens : List Nat) : String :=
   let fs := "/".intercalate (renderFrames s.out lens)
-  let ws := ",".intercalate (s.wres.map renderW)
-  let _ := isHead
+  -- HEAD: the real result of a Write that reaches the bufio.Writer depends on goroutine timing (writeHeaders' select
+  -- between the write result and the stream's close signal); only its class is compared
+  let ws := ",".intercalate (s.wres.map fun w =>
+    if isHead then (match w with | .n _ => "w" | .shortWrite => "w" | _ => renderW w) else renderW w)
   (if fs.isEmpty then "-" else fs) ++ "|" ++ (if ws.isEmpty then "-" else ws)
 
 def envDrv : Env := { sniff := fun _ => [64], now := [64] }
